@@ -31,6 +31,8 @@ pub struct Case {
     pub pdf: Option<FnR>,
     /// note on what the law check of this case does not decide
     pub law_note: &'static str,
+    /// absolute granularity of the output (components computed by subtraction from 1), 0 if none
+    pub abs_gran: f64,
 }
 
 #[derive(Clone, Copy, PartialEq, Eq, Debug)]
@@ -107,6 +109,7 @@ impl Reg {
             in_law,
             pdf: None,
             law_note: "",
+            abs_gran: 0.0,
         });
         self.v.last_mut().unwrap()
     }
@@ -132,7 +135,7 @@ impl Reg {
         let build = Arc::new(move || {
             ctor().map(|d| Box::new(Vc::new(d, proj.clone(), chk.clone())) as Box<dyn Sampler>)
         });
-        self.v.push(Case { family, fty, label, params, build, law, in_law, pdf: None, law_note: "" });
+        self.v.push(Case { family, fty, label, params, build, law, in_law, pdf: None, law_note: "", abs_gran: 0.0 });
         self.v.last_mut().unwrap()
     }
 }
@@ -363,7 +366,7 @@ macro_rules! float_cases {
                 let chk = |x: F| if x.is_nan() { Some("NaN") } else if x < 0.0 { Some("negative") } else if x.is_infinite() { Some("infinite") } else if x.fract() != 0.0 { Some("not an integer") } else { None };
                 let pref = Arc::new(std::sync::OnceLock::<DiscRef>::new());
                 let c = r.add("Poisson", N, &[("lambda", l)], move || Poisson::<F>::new(l as F).ok(), chk, disc(move |k| pref.get_or_init(|| poisson_ref(lr)).cdf(k), 0.0, INF), true);
-                if l < 12.0 && l > 0.5 { c.law_note = "Knuth product method: law not decided (no restart structure), support/termination only"; }
+                if l < 12.0 { c.law_note = "Knuth product method: law not decided (no restart structure), support/termination only"; }
             }
             if !IS32 {
                 for &l in &[1e16, 1e17, 1e18, 1e19, 1.844e19] {
@@ -385,7 +388,8 @@ macro_rules! float_cases {
                 let sr = R(s);
                 // documented: proposals can overflow to +inf when s is close to 1
                 let chk = move |x: F| { if x.is_nan() { Some("NaN") } else if x < 1.0 { Some("below 1") } else if x.is_infinite() { if s < 1.5 { None } else { Some("infinite") } } else if x.fract() != 0.0 { Some("not an integer") } else { None } };
-                r.add("Zeta", N, &[("s", s)], move || Zeta::<F>::new(s as F).ok(), chk, disc(move |k| zeta_cdf(k, sr), 1.0, INF), true);
+                // f32: for s < 1.5 the proposal u^(-1/(s-1)) overflows with probability > 1e-6 (documented +inf result)
+                r.add("Zeta", N, &[("s", s)], move || Zeta::<F>::new(s as F).ok(), chk, disc(move |k| zeta_cdf(k, sr), 1.0, INF), !(IS32 && s < 1.5));
             }
             if !IS32 {
                 r.add("Zeta", N, &[("s", 1.0 + 1e-15)], || Zeta::<F>::new((1.0 + 1e-15) as F).ok(),
@@ -464,6 +468,10 @@ macro_rules! float_cases {
                     let c = r.addv::<_, Vec<F>>("Dirichlet", N, format!("Dirichlet<{N}>({:?}):{pn}", al), al.clone(),
                         move || Dirichlet::<F>::new(&alf2).ok(), pf, simplex.clone(), law, inlaw);
                     if al.iter().any(|&a| a < 0.02) && IS32 { c.in_law = false; }
+                    // three or more components with small alpha: the mass of every marginal and ratio sits within float
+                    // granularity of 0 and 1 (1 - x cancellation in the stick-breaking chain); law not judged there
+                    if n >= 3 && al.iter().any(|&a| a < 0.2) { c.in_law = false; }
+                    c.abs_gran = 4.0 * if IS32 { f32::EPSILON as f64 } else { f64::EPSILON };
                 }
             }
         }
@@ -505,7 +513,7 @@ pub fn cases_int(r: &mut Reg, tier: Tier, _seed: u64) {
         let bref = Arc::new(std::sync::OnceLock::<DiscRef>::new());
         let c = r.add("Binomial", "u64", &[("n", nf), ("p", p)], move || Binomial::new(n, p).ok(), chk, disc(move |k| bref.get_or_init(|| binomial_ref(nf, p)).cdf(k), 0.0, nf), inlaw);
         let pp = p.min(1.0 - p);
-        if pp > 0.0 && 1.0 - pp == 1.0 && nf * pp < 10.0 { c.law_note = "Poisson-limit branch (Knuth product method): law decided only coarsely"; }
+        if pp > 0.0 && 1.0 - pp == 1.0 && nf * pp < 10.0 { c.law_note = "Poisson-limit branch (Knuth product method): law not decided"; }
     }
     // ---- Geometric
     for &p in &[1.0, 0.9, 2.0 / 3.0, 0.66, 0.5, 0.3, 0.1, 0.01, 1e-3, 1e-6, 2e-10, 1e-12, 2f64.powi(-53)] {
